@@ -159,11 +159,6 @@ def translate(ctx):
 
 # ------------------------------------------------------------------ implementation adapters
 
-FINDING_DUP = 'F-C14-1'
-FINDING_DATE_OVERFLOW = 'F-C14-2'
-import re as _re
-_MON = '(Jan|Feb|Mar|Apr|May|Jun|Jul|Aug|Sep|Oct|Nov|Dec)'
-HUGE_DATE_RE = _re.compile(r'(?<!\S)(\d{10,}-?' + _MON + r'-?\d+|\d+-?' + _MON + r'-?\d{10,})(?!\S)')
 
 
 def _impl():
@@ -285,12 +280,7 @@ def check_case(ctx, D, case):
     out = impl_parse(D, case['text'])
     bad = judge(out, case['want'], case['must_reject'], case['kind'])
     if bad:
-        finding = None
-        if case['kind'] == 'redeclare_differently' and bad.startswith('misread'):
-            finding = FINDING_DUP
-        elif case['kind'] == 'garble_date' and out == 'raise OverflowError' and HUGE_DATE_RE.search(case['text']):
-            finding = FINDING_DATE_OVERFLOW
-        ctx.fail(case, bad, finding=finding)
+        ctx.fail(case, bad)
     return out, bad
 
 
@@ -380,8 +370,7 @@ def run_tokens(ctx, D, with_model=True):
         ctx.count('oracle_cases')
         bad = judge_tok(out, want)
         if bad:
-            known = k == 'd' and out == 'raise OverflowError' and HUGE_DATE_RE.fullmatch(t)
-            ctx.fail(case, bad, finding=FINDING_DATE_OVERFLOW if known else None)
+            ctx.fail(case, bad)
         elif want not in (None, 'reject'):
             ctx.nontriv(('tok', k, t))
     ctx.count('token_cases', len(toks))
@@ -493,9 +482,7 @@ def run_files(ctx, D, nfiles, ncorrupt_bases, with_model=True):
         can = impl_can(D, case['text'])
         ctx.count('oracle_cases')
         if can.startswith('raise'):
-            known = case['kind'] == 'garble_date' and can == 'raise OverflowError' and HUGE_DATE_RE.search(case['text'])
-            ctx.fail({'op': 'can', 'text': case['text'], 'want': None}, f'can_parse_file let {can[6:]} escape',
-                     finding=FINDING_DATE_OVERFLOW if known else None)
+            ctx.fail({'op': 'can', 'text': case['text'], 'want': None}, f'can_parse_file let {can[6:]} escape')
         if m_dat is not None:
             ctx.corr('parse_corrupt', {'op': 'parse', 'kind': case['kind'], 'text': case['text']}, out, model_to_canon(m_dat[i]))
             ctx.corr('can_corrupt', {'op': 'can', 'kind': case['kind'], 'text': case['text']}, can, m_can[i])
